@@ -183,15 +183,15 @@ func (v *validator) validateCert(cert *x509.Certificate) error {
 
 	// validate the cert against the CRLs
 	for _, endpoint := range cert.CRLDistributionPoints {
+		// the issuer must be trusted, also if the endpoint is already known (from a certificate of another issuer)
+		issuer, ok := v.getCert(cert.Issuer.String())
+		if !ok {
+			return ErrCertUntrusted
+		}
 		crl, ok := v.getCRL(endpoint)
 
 		// add distribution endpoint if unknown
 		if !ok {
-			var issuer *x509.Certificate
-			issuer, ok = v.getCert(cert.Issuer.String())
-			if !ok {
-				return ErrCertUntrusted
-			}
 			err := v.addEndpoints(issuer, []string{endpoint})
 			if err != nil {
 				logger().WithError(err).
